@@ -62,6 +62,9 @@ class NodeLib(LibBase):
         nodes_utils.install(self)
         from contracts import nodes_init
         nodes_init.install(self)
+        for fn, con in self.contracts["utils"].items():
+            if con is not None and con.is_generator:
+                self.globals[fn] = V.VFunc("utils." + fn)
 
     def classes(self):
         return [k for k in PROFILES if self.contracts[k]]
@@ -86,7 +89,9 @@ class NodeLib(LibBase):
         if cls == "Pallet":
             return {"items": ("list", IT)}
         if cls == "BaseFlowItem":
-            return {"timestamp_creation": ("opt", ("num", "real")), "source_id": ("obj", "nodeid")}
+            return {"timestamp_creation": ("opt", ("num", "real")), "source_id": ("obj", "nodeid"),
+                    "timestamp_node_entry": ("opt", ("num", "real")), "timestamp_node_exit": ("opt", ("num", "real")),
+                    "current_node_id": ("opt", ("obj", "nodeid")), "stats": ("opaque",)}
         if cls == "utils":
             return f
         f.update({"id": ("obj", "nodeid"), "node_setup_time": ("num", "real"),
@@ -220,6 +225,27 @@ class NodeLib(LibBase):
                     "args": {k: dump_value(v, m) for k, v in args.items() if isinstance(v, V.Value)}}
         except Exception as e:
             return {"error": repr(e)}
+
+    def call_func(self, ex, fv, args, st, node):
+        """a module-level generator function of utils/utils.py taken from a table: calling it creates the generator"""
+        if fv.name.startswith("utils."):
+            name = fv.name[len("utils."):]
+            con = self.contracts["utils"].get(name)
+            if con is not None and con.is_generator:
+                from pyvc.execute import VGen
+                amap = {}
+                for k, (pn, kind, default) in enumerate(con.params):
+                    if k < len(args):
+                        amap[pn] = args[k]
+                return [(VGen(name, amap), st)]
+        return None
+
+    def member(self, ex, x, lst, st, lineno):
+        # a dictionary outside the modelled state (the per-node statistics of a flow item): membership unconstrained
+        if isinstance(lst, V.VOpaque):
+            b = z3.Bool("opaque_member!%s" % _n())
+            return [(bb, s, None) for bb, s in ex.branch(st, b, lineno)]
+        return None
 
     def loop_invs(self, cls, fname):
         con = self.contracts[cls].get(fname)
